@@ -138,6 +138,56 @@ def walk_outside_closures(node):
             stack.extend(reversed(kids))
 
 
+_PURE_METHODS = {'len', 'is_empty', 'is_ok', 'is_err', 'is_some', 'is_none', 'clone', 'as_str', 'to_string', 'elapsed', 'kind', 'as_ref', 'name',
+                 'to_owned', 'as_bytes', 'get', 'contains_key', 'first', 'last', 'iter', 'keys', 'values', 'count', 'unwrap_or', 'unwrap_or_default', 'map', 'copied', 'cloned'}
+
+
+def log_only_locals(body, fns=None, is_new_helper=None):
+    """Ids of `let x = <pure expression>` locals that are only ever mentioned inside logging macros: neither the
+    local nor its initialiser can influence behaviour, so readers skip the statement."""
+    uses = {}
+    lets = {}
+
+    def rec(n, in_log):
+        if not isinstance(n, dict):
+            return
+        k = n.get('k')
+        if k == 'MacroCall' and n.get('name') in LOG_MACROS:
+            in_log = True
+        if k == 'Local':
+            uses.setdefault(n['id'], []).append(in_log)
+        if k == 'Let' and n.get('pat', {}).get('k') == 'Bind' and n.get('init') is not None and n.get('els') is None:
+            lets[n['pat']['id']] = n['init']
+        for _, c in children(n):
+            rec(c, in_log)
+    rec(body, False)
+
+    def pure(e, depth=0):
+        for n in walk(e):
+            k = n.get('k')
+            if k in ('Assign', 'AssignOp', 'Ret', 'Break', 'Continue', 'Loop', 'Try', 'Closure', 'Index'):
+                return False
+            if k == 'MacroCall' and n.get('name') not in LOG_MACROS and n.get('name') not in ('format', 'concat', 'stringify'):
+                return False
+            if k in ('Call', 'MethodCall'):
+                cp = norm_path(callee_path(n) or '')
+                if k == 'Call' and n['f'].get('dk', '').startswith('Ctor'):
+                    continue
+                tgt = (fns or {}).get(cp)
+                if tgt is not None and 'hir' in tgt and is_new_helper is not None and is_new_helper(cp) and depth < 2 and pure(tgt['hir'], depth + 1):
+                    continue
+                if k == 'MethodCall' and n.get('name') in _PURE_METHODS and not (tgt is not None):
+                    continue
+                return False
+        return True
+    out = set()
+    for lid, init in lets.items():
+        us = uses.get(lid, [])
+        if all(us) and pure(init):
+            out.add(lid)
+    return out
+
+
 def find(node, pred):
     return [n for n in walk(node) if pred(n)]
 
